@@ -739,6 +739,7 @@ fn items_j<'tcx>(cx: &Cx<'tcx>) -> (J, J, J, J) {
                 let (f, l) = cx.span_s(tcx.def_span(did));
                 o.push(("file", J::S(f)));
                 o.push(("line", J::I(l)));
+                o.push(("mx", opt(cx.macro_of(tcx.def_span(did)).map(J::S))));
                 let mut assoc = vec![];
                 for it in tcx.associated_items(did).in_definition_order() {
                     let Some(itname) = it.opt_name() else { continue };
@@ -776,7 +777,12 @@ fn items_j<'tcx>(cx: &Cx<'tcx>) -> (J, J, J, J) {
                     vs.push(J::O(vec![("name", J::s(v.name.to_string())), ("fields", J::A(fs))]));
                 }
                 let (f, l) = cx.span_s(tcx.def_span(did));
+                let gens = tcx.generics_of(did);
+                let gnames: Vec<J> =
+                    gens.own_params.iter().map(|p| J::s(p.name.to_string())).collect();
                 adts.push(J::O(vec![
+                    ("generics", J::A(gnames)),
+                    ("mx", opt(cx.macro_of(tcx.def_span(did)).map(J::S))),
                     ("def", J::s(cx.dp(did))),
                     ("kind", J::s(format!("{:?}", tcx.def_kind(did)))),
                     ("variants", J::A(vs)),
@@ -814,7 +820,7 @@ fn items_j<'tcx>(cx: &Cx<'tcx>) -> (J, J, J, J) {
                 let gnames: Vec<J> =
                     gens.own_params.iter().map(|p| J::s(p.name.to_string())).collect();
                 o.push(("generics", J::A(gnames)));
-                // is it under #[cfg(test)]? (approximation: a `tests`/`test` module ancestor)
+                o.push(("mx", opt(cx.macro_of(tcx.def_span(did)).map(J::S))));
                 o.push(("file", J::S(f)));
                 o.push(("line", J::I(l)));
                 fns.push(J::O(o));
